@@ -50,6 +50,25 @@ var (
 	sharedAny    any = P{N: 6}
 )
 
+// sharedFormatted returns a Value whose backing array is shared by every caller: the compact form of in
+// (the input itself when it is invalid), computed once.
+var sharedFormattedMap sync.Map
+
+func sharedFormatted(name, in string) jsontext.Value {
+	if v, ok := sharedFormattedMap.Load(name); ok {
+		b := v.([]byte)
+		return jsontext.Value(b[:len(b):len(b)])
+	}
+	v := jsontext.Value(in)
+	if err := v.Compact(); err != nil {
+		v = jsontext.Value(in)
+	}
+	b := []byte(v)
+	act, _ := sharedFormattedMap.LoadOrStore(name, b)
+	b = act.([]byte)
+	return jsontext.Value(b[:len(b):len(b)])
+}
+
 type U struct{ N int }
 
 func (u *U) UnmarshalJSONFrom(d *jsontext.Decoder) error {
@@ -390,6 +409,13 @@ func buildCatalogue() {
 			return m
 		}, false},
 		{"floats", func() any { return []float64{0, -0.0, 1e21, 1e-7, 123456789.125, 5e-324} }, false},
+		// scratch name lists of the Deterministic paths: a fallback map with several entries, then nested maps
+		{"fallback-map-3", func() any {
+			return []FB{{A: 1, Rest: map[string]int{"zz": 1, "yy": 2, "xx": 3}}, {A: 2, Rest: map[string]int{"q": 1, "p": 2}}}
+		}, false},
+		{"nested-maps", func() any {
+			return map[string]map[string]int{"b": {"r": 3, "s": 4, "q": 0}, "a": {"p": 1, "q": 2}, "c": {"z": 9, "y": 8}}
+		}, false},
 	}
 	for mi, mv := range mvals {
 		for oi, os := range mopts {
@@ -672,6 +698,25 @@ func buildCatalogue() {
 			})
 		}
 		fi := fi
+		// nil destination (nothing to append to) and a destination without spare capacity: what comes back must be the
+		// caller's own memory even when the text needed no change
+		for di, dst := range [][]byte{nil, make([]byte, 0), []byte("x")[:1:1]} {
+			di, dst := di, dst
+			add(fmt.Sprintf("format/%s/AppendFormat-tight-dst-%d", fi.name, di), "AppendFormat", false, fi.heavy, func(keep func(string, func() []byte)) result {
+				src := []byte(fi.in)
+				out, err := jsontext.AppendFormat(dst, src)
+				res := string(out)
+				keep("AppendFormat", func() []byte { return out })
+				scribble(src)
+				return result{res, errClass(err)}
+			})
+		}
+		// an already formatted text shared by all goroutines: formatting it again must not write to it
+		add("format/"+fi.name+"/Value.Compact-shared-formatted", "Format", false, fi.heavy, func(keep func(string, func() []byte)) result {
+			v := sharedFormatted(fi.name, fi.in)
+			err := v.Compact()
+			return result{string(v), errClass(err)}
+		})
 		add("format/"+fi.name+"/Canonicalize", "Canonicalize", false, fi.heavy, func(keep func(string, func() []byte)) result {
 			v := jsontext.Value(fi.in)
 			err := v.Canonicalize()
